@@ -875,8 +875,8 @@ impl Check for StakingCheck {
 
     fn budget(_id: &str, tier: Tier) -> Budget {
         match tier {
-            Tier::Quick => Budget { cases: 8000, max_bytes: 900 },
-            Tier::Thorough => Budget { cases: 150_000, max_bytes: 1600 },
+            Tier::Quick => Budget { cases: 16_000, max_bytes: 900 },
+            Tier::Thorough => Budget { cases: 300_000, max_bytes: 1600 },
         }
     }
 
